@@ -130,6 +130,11 @@ fn interp(ty: &Ty, n: &Node) -> V {
                     VK::Unit => {
                         if is_null(&bare) {
                             V::Must(Pat::Var(i, vec![]))
+                        } else if matches!(&bare.kind, Kind::Scalar { style: Style::Plain, .. } | Kind::Seq { .. }) {
+                            // `!Variant x` / `!Variant [..]` for a unit variant: a payload where none
+                            // belongs is a kind mismatch, exactly as in `{Variant: x}` - it must not
+                            // be dropped silently
+                            V::MustErr
                         } else {
                             free_any()
                         }
@@ -528,6 +533,18 @@ fn perturb(doc: &Node, at: usize, kind: u16) -> (Node, &'static str) {
                     *label = "quoted-scalar";
                     return Node { anchor: None, tag: n.tag.clone(), kind: Kind::Scalar { value: value.clone(), style: Style::Double } };
                 }
+                // the `!Variant` tag stays, the payload is replaced (a payload for a unit variant,
+                // the wrong kind for the others)
+                (_, 18) if n.tag.is_some() => {
+                    *label = "tagged-payload-scalar";
+                    *idx += n.count() - 1;
+                    return Node { anchor: None, tag: n.tag.clone(), kind: Kind::Scalar { value: "zz".into(), style: Style::Plain } };
+                }
+                (_, 19) if n.tag.is_some() => {
+                    *label = "tagged-payload-seq";
+                    *idx += n.count() - 1;
+                    return Node { anchor: None, tag: n.tag.clone(), kind: Kind::Seq { flow: true, items: vec![Node::plain("7")] } };
+                }
                 _ => {}
             }
         }
@@ -617,7 +634,7 @@ impl Property for C05 {
     const ID: &'static str = "C05";
     type Case = Case;
     fn rule() -> String {
-        "cases = (run-time type description, document). Types from a schema grammar (bool / int / string / option / unit / sequence / tuple / tuple struct / newtype / map / struct with and without deny_unknown_fields / enum with all four variant kinds, depth <= 4); the document is first generated from the type and a value (plain scalars of three unambiguous lexical classes; enum values in bare, mapping and tagged notation; block and flow), then perturbed at one random node by one of 18 perturbations (null / scalar / sequence / mapping / bare variant / variant mapping / two-variant mapping in place, extra / missing / first-missing element, extra / missing entry, renamed key, extra variant entry, sequence<->mapping, quoted scalar) or left intact. Oracle: a reference interpreter over the document AST (self-checked against the raw parser events) and the type, written from DESIGN.md Appendix A, answers Must(pattern) / MustErr / Free(pattern): an accepted value must match the position-faithful pattern (holes only where the documentation is silent), a MustErr document must be rejected, a Must document must be accepted. Non-trivial: perturbed documents, and matching documents with an enum or tuple inside a sequence / map.".into()
+        "cases = (run-time type description, document). Types from a schema grammar (bool / int / string / option / unit / sequence / tuple / tuple struct / newtype / map / struct with and without deny_unknown_fields / enum with all four variant kinds, depth <= 4); the document is first generated from the type and a value (plain scalars of three unambiguous lexical classes; enum values in bare, mapping and tagged notation; block and flow), then perturbed at one random node by one of 20 perturbations (null / scalar / sequence / mapping / bare variant / variant mapping / two-variant mapping in place, extra / missing / first-missing element, extra / missing entry, renamed key, extra variant entry, sequence<->mapping, quoted scalar, scalar / sequence payload under a kept `!Variant` tag) or left intact. Oracle: a reference interpreter over the document AST (self-checked against the raw parser events) and the type, written from DESIGN.md Appendix A, answers Must(pattern) / MustErr / Free(pattern): an accepted value must match the position-faithful pattern (holes only where the documentation is silent), a MustErr document must be rejected, a Must document must be accepted. Non-trivial: perturbed documents, and matching documents with an enum or tuple inside a sequence / map.".into()
     }
     fn assumptions() -> Vec<String> {
         vec![
